@@ -170,6 +170,21 @@ func Join(tokens []string) string {
 	return b.String()
 }
 
+// JoinWith is Join with another whitespace string in the places where Join puts a single space.
+func JoinWith(tokens []string, sep string) string {
+	var b strings.Builder
+	for i, t := range tokens {
+		if i > 0 {
+			p := tokens[i-1]
+			if needGap(p, t) || isWordOp(t) || isWordOp(p) || isSymOp(t) || isSymOp(p) {
+				b.WriteString(sep)
+			}
+		}
+		b.WriteString(t)
+	}
+	return b.String()
+}
+
 func isWordOp(t string) bool {
 	switch t {
 	case "div", "mod", "and", "or", "xor", "implies", "is", "as", "in", "contains":
